@@ -36,7 +36,7 @@ func NewCourse(degrees int, magnetic bool) (*Course, error) {
 		degrees = 0
 	}
 	c := Course{Magnetic: magnetic}
-	copy(c.Digits[:], []byte(fmt.Sprintf("%3d", degrees)))
+	copy(c.Digits[:], []byte(fmt.Sprintf("%03d", degrees)))
 	return &c, nil
 }
 
